@@ -1195,3 +1195,272 @@ fn main() {{}}
 U_CALLSELF = VUnit("c07_call_self", ["C07", "C01"], "call_self handler: recursion of a closure", build_call_self)
 U_CALLSELF.assumes = ["Stack::get_executing_function_label is an abstract callee here (obligation C01.stack.executing_function)", "gc cell semantics assumed"]
 UNITS.append(U_CALLSELF)
+
+
+# =====================================================================================================================
+# C01 / C15 / C06: the small handlers every expression goes through -- literal constructors, pop, void, fast_rev2, arg, the temporaries'
+# delete, reserve_primitive, load_callback, make_vector, printn
+LIT_SPEC = r"""
+// Primitive::make_bool / make_int / make_float / make_byte / make_bigint (bytecode/src/variables/primitive.rs; their own obligations are
+// C01.literal.* below): what a literal's text denotes
+pub uninterp spec fn lit_value(kind: int, text: Seq<char>) -> Option<Primitive>;     // kind: 0 bool, 1 int, 2 float, 3 byte, 4 bigint
+#[verifier::external_body] pub fn prim_make(kind: u8, s: &VString) -> (r: Result<Primitive, VErr>)
+    ensures r is Ok <==> lit_value(kind as int, text_of(s)) is Some, r is Ok ==> r->Ok_0 == lit_value(kind as int, text_of(s))->Some_0 { unimplemented!() }
+pub uninterp spec fn str_prim(t: Seq<char>) -> Primitive;                           // string!(raw s): the string value with exactly that text
+#[verifier::external_body] pub fn make_string_raw(s: &VString) -> (r: Primitive) ensures r == str_prim(text_of(s)) { unimplemented!() }
+#[verifier::external_body] pub fn empty_text() -> (r: VString) ensures text_of(&r) == Seq::<char>::empty() { unimplemented!() }
+pub uninterp spec fn vector_of(items: Seq<Primitive>) -> Primitive;                 // vector!(raw v): a NEW list holding exactly these items
+#[verifier::external_body] pub fn make_vector_raw(v: Vec<Primitive>) -> (r: Primitive) ensures r == vector_of(v@) { unimplemented!() }
+#[verifier::external_body] pub fn empty_vec(cap: usize) -> (r: Vec<Primitive>) ensures r@ == Seq::<Primitive>::empty() { unimplemented!() }
+pub open spec fn nil_value() -> Primitive { Primitive::Optional(None) }
+// the arguments the executing function was called with (Ctx.args)
+pub uninterp spec fn fn_args(f: &Frames) -> Seq<Primitive>;
+// variables deleted from the innermost frame, in order (Stack::delete_variable_local: abstract; fails when the name is not there)
+pub uninterp spec fn deleted(f: &Frames) -> Seq<Seq<char>>;
+pub uninterp spec fn local_cell(f: &Frames, name: Seq<char>) -> Option<Handle>;
+impl Ctx {
+    #[verifier::external_body] pub fn nth_arg(&self, n: usize) -> (r: Option<&Primitive>)
+        ensures r is Some <==> (n as int) < fn_args(&self.frames).len(), r is Some ==> *r->Some_0 == fn_args(&self.frames)[n as int] { unimplemented!() }
+    #[verifier::external_body] pub fn argc(&self) -> (r: usize) ensures r as int == fn_args(&self.frames).len() { unimplemented!() }
+    #[verifier::external_body] pub fn delete_variable_local(&mut self, name: &VString) -> (r: Result<Handle, VErr>)
+        ensures final(self).stack == old(self).stack, final(self).exit_state == old(self).exit_state, final(self).callback_state == old(self).callback_state,
+                r is Ok <==> local_cell(&old(self).frames, text_of(name)) is Some,
+                r is Ok ==> cell_id(&r->Ok_0) == cell_id(&local_cell(&old(self).frames, text_of(name))->Some_0) && deleted(&final(self).frames) == deleted(&old(self).frames).push(text_of(name))
+                    && (forall|n: Seq<char>| n != text_of(name) ==> local_cell(&final(self).frames, n) == local_cell(&old(self).frames, n)),
+                r is Err ==> final(self).frames == old(self).frames && final(self).locals == old(self).locals
+    { unimplemented!() }
+}
+pub uninterp spec fn cell_value(id: int) -> Primitive;
+impl Handle { #[verifier::external_body] pub fn verif_value(&self) -> (r: Primitive) ensures r == cell_value(cell_id(self)) { unimplemented!() } }
+// ---- standard output as a ghost log: finished lines + the line being written
+pub uninterp spec fn shown(p: Primitive) -> Seq<char>;                               // Display for Primitive
+pub struct Out { pub lines: Ghost<Seq<Seq<char>>>, pub cur: Ghost<Seq<char>> }
+pub open spec fn comma_space() -> Seq<char> { seq![',', ' '] }
+pub fn out_print(out: &mut Out, p: &Primitive) ensures final(out).lines@ == old(out).lines@, final(out).cur@ == old(out).cur@ + shown(*p) { out.cur = Ghost(out.cur@ + shown(*p)); }
+pub fn out_print_sep(out: &mut Out, p: &Primitive) ensures final(out).lines@ == old(out).lines@, final(out).cur@ == old(out).cur@ + comma_space() + shown(*p) { out.cur = Ghost(out.cur@ + comma_space() + shown(*p)); }
+pub fn out_newline(out: &mut Out) ensures final(out).lines@ == old(out).lines@.push(old(out).cur@), final(out).cur@ == Seq::<char>::empty() { out.lines = Ghost(out.lines@.push(out.cur@)); out.cur = Ghost(Seq::empty()); }
+// what `print a, b, c` writes: the operands in order, separated by ", "
+pub open spec fn joined(s: Seq<Primitive>, n: int) -> Seq<char> decreases n {
+    if n <= 0 { Seq::empty() } else if n == 1 { shown(s[0]) } else { joined(s, n - 1) + comma_space() + shown(s[n - 1]) }
+}
+#[verifier::external_body] pub fn text_is_star(s: &VString) -> (r: bool) ensures r == (text_of(s) == seq!['*']) { unimplemented!() }
+"""
+
+LIT_KINDS = {"make_bool": 0, "make_int": 1, "make_float": 2, "make_byte": 3, "make_bigint": 4}
+
+
+def build_literals(repo):
+    src = Source(repo)
+    log = []
+    names = ["pop", "push", "clear_stack", "stack_size", "get_local_operating_stack"]
+    ctx = ctx_impl(src, log, names)
+    extra = [Rule("R6", f"Primitive :: {n} ( & args [ 0 ] ) ?", f"prim_make ( {k}u8 /*{n}*/ , & args [ 0 ] ) ?", why=f"Primitive::{n}: the literal parser (its own obligation)") for n, k in LIT_KINDS.items()]
+    extra += [
+        Rule("R9", "args . is_empty ( )", "( args . len ( ) == 0 )", why="slice::is_empty"),
+        Rule("R1", "0 => \"\" ,", "0 => & verif_empty ,", why="the empty string literal as a text value"),
+        Rule("R1", "let raw_str = match", "let verif_empty = empty_text ( ) ; let raw_str = match", why="the empty string literal as a text value"),
+        Rule("R1", "crate :: string ! ( raw raw_str )", "make_string_raw ( raw_str )", why="string!(raw s): Primitive::Str of exactly that text"),
+        Rule("R1", "optional ! ( empty )", "Primitive :: Optional ( None )", why="optional!(empty): nil"),
+        Rule("R1", "vector ! ( raw Vec :: with_capacity ( capacity ) )", "make_vector_raw ( empty_vec ( capacity ) )", why="vector!(raw v): a new list with the items of v"),
+        Rule("R1", "vector ! ( raw vec )", "make_vector_raw ( vec )", why="vector!(raw v): a new list with the items of v"),
+        Rule("R1", "ctx . get_local_operating_stack ( ) . clone ( )", "clone_stack ( ctx . get_local_operating_stack ( ) )", why="Vec clone"),
+        Rule("R1", "nth_arg . clone ( )", "clone_prim ( nth_arg )", why="Primitive::clone"),
+        Rule("R1", "var . primitive ( ) . clone ( )", "var . verif_value ( )", why="content of the variable's cell"),
+        Rule("R1", "deleted . primitive ( ) . clone ( )", "deleted . verif_value ( )", why="content of the variable's cell"),
+        Rule("R1", "let deleted : PrimitiveFlagsPair =", "let deleted : Handle =", why="type renamed in the model"),
+        Rule("R8", "args . first ( ) . unwrap ( )", "& args [ 0 ]", why="first().unwrap(): index 0 with its bounds obligation (R8)"),
+        # fast_rev2: two &mut into the operand stack -> take / mutate / put back (R13)
+        Rule("R13", "let Some ( [ first , second ] ) = ctx . get_many_op_items_mut ( 0 .. 2 ) else { $$e } ;",
+             "if ctx . stack . len ( ) < 2 { $$e } let mut first = clone_prim ( & ctx . stack [ 0 ] ) ; let mut second = clone_prim ( & ctx . stack [ 1 ] ) ;", why="&mut to the two bottom operands -> copies, written back at the end (same final stack)"),
+        Rule("R13", "* first = $$e ;", "first = $$e ;", why="write through &mut -> local"),
+        Rule("R13", "* second = $$e ;", "second = $$e ;", why="write through &mut -> local"),
+        Rule("R1", "first . clone ( )", "clone_prim ( & first )", why="Primitive::clone"),
+        Rule("R1", "second . clone ( )", "clone_prim ( & second )", why="Primitive::clone"),
+        # printn
+        Rule("R9", "arg == \"*\"", "text_is_star ( arg )", why="String == literal"),
+        Rule("R3", "log :: warn ! $a ;", "", why="logging dropped"),
+        Rule("R9", "# [ cfg ( feature = \"debug\" ) ] stdout ( ) . flush ( ) ? ;", "", why="cfg(feature = \"debug\") is off in the default build"),
+        Rule("R9", "print ! ( \"{first}\" ) ;", "out_print ( out , first ) ;", why="print! of one value: appended to the current output line"),
+        Rule("R9", "print ! ( \", {var}\" )", "out_print_sep ( out , var ) ;", why="print! of `, ` and one value"),
+        Rule("R9", "println ! ( ) ;", "out_newline ( out ) ;", why="println!(): the current line is finished"),
+        Rule("R9", "println ! ( \"{}\" , $$e ) ;", "{ let verif_p = $$e ; out_print ( out , verif_p ) ; out_newline ( out ) ; }", why="println! of one value"),
+        Rule("R9", "ctx . get_nth_op_item ( $$i ) . context ( $m ) ?", "stack_get_req ( & ctx . stack , $$i ) ?", why="slice::get on the operand stack; None -> error (context text dropped)"),
+        Rule("R9", "ctx . get_nth_op_item ( $$i )", "stack_get ( & ctx . stack , $$i )", why="slice::get on the operand stack"),
+    ]
+    simple = ["pop", "void", "make_bool", "make_int", "make_float", "make_byte", "make_bigint", "make_str", "arg", "reserve_primitive", "load_callback", "make_vector", "delete_name_reference_scoped"]
+    hs = {n: handler(src, log, n, extra) for n in simple}
+    # fast_rev2: write-back before the final Ok(())
+    fr = handler(src, log, "fast_rev2", extra)
+    if fr[-5:] != ["Ok", "(", "(", ")", ")"]:
+        raise Undecided("fast_rev2: final Ok(()) not found")
+    fr = fr[:-5] + lex("ctx . stack . set ( 0 , first ) ; ctx . stack . set ( 1 , second ) ;") + fr[-5:]
+    log.append(("R13", "(end of fast_rev2)", "ctx.stack.set(0, first); ctx.stack.set(1, second);", "write-back of the two operands taken out above"))
+    # delete_name_scoped: loop with invariant
+    fd = src.fn(INSTR, "delete_name_scoped", "pub mod implementations")
+    INVD = ("invariant verif_k <= args.len(), ctx.stack == old(ctx).stack, ctx.exit_state == old(ctx).exit_state, ctx.callback_state == old(ctx).callback_state, "
+            "deleted(&ctx.frames) == deleted(&old(ctx).frames) + args@.subrange(0, verif_k as int).map_values(|a: VString| text_of(&a)) decreases args.len() - verif_k")
+    dl = translate(list(fd["body"]), [
+        Rule("R2", "for name in args { $$body }", lambda b: ["let mut verif_k : usize = 0 ; while verif_k < args . len ( )", G(INVD), "{ let name = & args [ verif_k ] ; verif_k += 1 ;", *b["body"],
+                                                              G("proof { assert(args@.subrange(0, verif_k as int).map_values(|a: VString| text_of(&a)) =~= args@.subrange(0, verif_k as int - 1).map_values(|a: VString| text_of(&a)).push(text_of(&args@[verif_k as int - 1]))); }"), "}"], count=1, why="for over &[String] -> indexed while"),
+    ] + extra + HANDLER_RULES, log, "implementations::delete_name_scoped")
+    check_closed(dl, "delete_name_scoped")
+    # printn: the `*` loop
+    fp = src.fn(INSTR, "printn", "pub mod implementations")
+    INVP = ("invariant 1 <= verif_k <= operating_stack.len(), *operating_stack == ctx.stack, *ctx == *old(ctx), out.lines@ == old(out).lines@, "
+            "out.cur@ == old(out).cur@ + joined(ctx.stack@, verif_k as int) decreases operating_stack.len() - verif_k")
+    pr = translate(list(fp["body"]), [
+        Rule("R2", "for var in operating_stack . iter ( ) . skip ( 1 ) { $$body }",
+             lambda b: ["let mut verif_k : usize = 1 ; while verif_k < operating_stack . len ( )", G(INVP), "{ let var = & operating_stack [ verif_k ] ; verif_k += 1 ;", *b["body"],
+                        G("proof { assert(out.cur@ =~= old(out).cur@ + joined(ctx.stack@, verif_k as int)); }"), "}"], count=1, why="for over iter().skip(1) -> indexed while from 1"),
+    ] + extra + HANDLER_RULES, log, "implementations::printn", generic=False)
+    from vlib.core import _generic_rules
+    for r in _generic_rules():
+        pr = r.apply(pr, log)
+    check_closed(pr, "printn")
+    lit_fns = "\n".join(f"""
+//@ OBL C01.handler.{n}
+pub fn {n}(ctx: &mut Ctx, args: &Vec<VString>) -> (r: Result<(), VErr>)
+    ensures r is Ok <==> (args@.len() == 1 && lit_value({k}, text_of(&args@[0])) is Some),
+            r is Ok ==> final(ctx).stack@ == old(ctx).stack@.push(lit_value({k}, text_of(&args@[0]))->Some_0),
+            r is Err ==> final(ctx).stack@ == old(ctx).stack@,
+            rest(final(ctx)) == rest(old(ctx)), final(ctx).exit_state == old(ctx).exit_state,
+{{
+{render(hs[n], 1)}
+}}""" for n, k in LIT_KINDS.items())
+    gen = header(log, f"{INSTR}: pop, void, make_bool/int/float/byte/bigint/str, fast_rev2, arg, reserve_primitive, load_callback, make_vector, delete_name_scoped, delete_name_reference_scoped, printn; {CTXF}: Ctx methods") + \
+        prelude("ctx.rs") + ctx.replace("impl Ctx {\n", "impl Ctx {\n    //@ OBL CTX.load_callback_variable\n    " + CTX_METHODS["load_callback_variable"][0] + "\n        " + CTX_METHODS["load_callback_variable"][1] + "\n    {\n" + render(translate(src.fn(CTXF, "load_callback_variable", "impl < 'a > Ctx < 'a >")["body"], CTX_RULES, log, "Ctx::load_callback_variable"), 2) + "\n    }\n", 1) + LIT_SPEC + """
+#[verifier::external_body] pub fn stack_get(v: &Vec<Primitive>, i: usize) -> (r: Option<&Primitive>) ensures (i as int) < v@.len() <==> r is Some, r is Some ==> *r->Some_0 == v@[i as int] { unimplemented!() }
+#[verifier::external_body] pub fn stack_get_req(v: &Vec<Primitive>, i: usize) -> (r: Result<&Primitive, VErr>) ensures (i as int) < v@.len() <==> r is Ok, r is Ok ==> *r->Ok_0 == v@[i as int] { unimplemented!() }
+""" + lit_fns + f"""
+//@ OBL C01.handler.pop
+// `pop`: the top operand is dropped (nothing else)
+pub fn pop(ctx: &mut Ctx, args: &Vec<VString>) -> (r: Result<(), VErr>)
+    ensures r is Ok <==> args@.len() == 0,
+            r is Ok ==> final(ctx).stack@ == (if old(ctx).stack@.len() > 0 {{ old(ctx).stack@.drop_last() }} else {{ old(ctx).stack@ }}),
+            rest(final(ctx)) == rest(old(ctx)), final(ctx).exit_state == old(ctx).exit_state,
+{{
+{render(hs['pop'], 1)}
+}}
+//@ OBL C01.handler.void
+// `void`: the operand stack is emptied (an expression statement's value is thrown away)
+pub fn void(ctx: &mut Ctx, _args: &Vec<VString>) -> (r: Result<(), VErr>)
+    ensures r is Ok, final(ctx).stack@.len() == 0, rest(final(ctx)) == rest(old(ctx)), final(ctx).exit_state == old(ctx).exit_state,
+{{
+{render(Rule("R1", "_ : & [ String ]", "_args", why="").apply(hs['void'], log), 1)}
+}}
+//@ OBL C01.handler.make_str
+// `make_str [TEXT]`: the string value with exactly the argument's text (no argument: the empty string)
+pub fn make_str(ctx: &mut Ctx, args: &Vec<VString>) -> (r: Result<(), VErr>)
+    ensures r is Ok <==> args@.len() <= 1,
+            r is Ok ==> final(ctx).stack@ == old(ctx).stack@.push(str_prim(if args@.len() == 0 {{ Seq::<char>::empty() }} else {{ text_of(&args@[0]) }})),
+            rest(final(ctx)) == rest(old(ctx)), final(ctx).exit_state == old(ctx).exit_state,
+{{
+{render(hs['make_str'], 1)}
+}}
+//@ OBL C15.handler.fast_rev2
+// `fast_rev2`: exactly two operands, exchanged (the binary-operator layout relies on it to restore source order: C15)
+pub fn fast_rev2(ctx: &mut Ctx, _args: &Vec<VString>) -> (r: Result<(), VErr>)
+    ensures r is Ok <==> old(ctx).stack@.len() == 2,
+            r is Ok ==> final(ctx).stack@ == seq![old(ctx).stack@[1], old(ctx).stack@[0]],
+            r is Err ==> final(ctx).stack@ == old(ctx).stack@,
+            rest(final(ctx)) == rest(old(ctx)), final(ctx).exit_state == old(ctx).exit_state,
+{{
+{render(fr, 1)}
+}}
+//@ OBL C01.handler.arg
+// `arg N`: pushes the N-th argument the function was called with
+pub fn arg(ctx: &mut Ctx, args: &Vec<VString>) -> (r: Result<(), VErr>)
+    ensures r is Ok <==> (args@.len() >= 1 && parses_usize(&args@[0]) && num_of(&args@[0]) < fn_args(&old(ctx).frames).len()),
+            r is Ok ==> final(ctx).stack@ == old(ctx).stack@.push(fn_args(&old(ctx).frames)[num_of(&args@[0])]),
+            r is Err ==> final(ctx).stack@ == old(ctx).stack@,
+            rest(final(ctx)) == rest(old(ctx)), final(ctx).exit_state == old(ctx).exit_state,
+{{
+{render(hs['arg'], 1)}
+}}
+//@ OBL C12.handler.reserve_primitive
+// `reserve_primitive`: pushes nil
+pub fn reserve_primitive(ctx: &mut Ctx, _args: &Vec<VString>) -> (r: Result<(), VErr>)
+    ensures r is Ok, final(ctx).stack@ == old(ctx).stack@.push(nil_value()), rest(final(ctx)) == rest(old(ctx)), final(ctx).exit_state == old(ctx).exit_state,
+{{
+{render(hs['reserve_primitive'], 1)}
+}}
+//@ OBL C07.handler.load_callback
+// `load_callback NAME`: pushes the current content of the captured variable's own cell
+pub fn load_callback(ctx: &mut Ctx, args: &Vec<VString>) -> (r: Result<(), VErr>)
+    ensures r is Ok <==> (args@.len() >= 1 && old(ctx).callback_state is Some && caps_view(&old(ctx).callback_state->Some_0).contains_key(text_of(&args@[0]))),
+            r is Ok ==> final(ctx).stack@ == old(ctx).stack@.push(cell_value(cell_id(&caps_view(&old(ctx).callback_state->Some_0)[text_of(&args@[0])]))),
+            rest(final(ctx)) == rest(old(ctx)), final(ctx).exit_state == old(ctx).exit_state,
+{{
+{render(hs['load_callback'], 1)}
+}}
+//@ OBL C13.handler.make_vector
+// `make_vector` without argument: a NEW list of exactly the operands, in order; the operand stack then holds only the list
+pub fn make_vector(ctx: &mut Ctx, args: &Vec<VString>) -> (r: Result<(), VErr>)
+    ensures args@.len() == 0 ==> r is Ok && final(ctx).stack@ == seq![vector_of(old(ctx).stack@)],
+            args@.len() == 1 ==> (r is Ok <==> parses_usize(&args@[0])) && (r is Ok ==> final(ctx).stack@ == old(ctx).stack@.push(vector_of(Seq::<Primitive>::empty()))),
+            args@.len() > 1 ==> r is Err,
+            rest(final(ctx)) == rest(old(ctx)), final(ctx).exit_state == old(ctx).exit_state,
+{{
+{render(hs['make_vector'], 1)}
+}}
+//@ OBL C15.handler.delete_name_scoped
+// `delete_name_scoped R..`: every listed temporary is removed from the innermost frame, in order; a missing one is an error
+pub fn delete_name_scoped(ctx: &mut Ctx, args: &Vec<VString>) -> (r: Result<(), VErr>)
+    ensures r is Ok ==> args@.len() > 0 && deleted(&final(ctx).frames) == deleted(&old(ctx).frames) + args@.map_values(|a: VString| text_of(&a)),
+            final(ctx).stack == old(ctx).stack, final(ctx).exit_state == old(ctx).exit_state, final(ctx).callback_state == old(ctx).callback_state,
+{{
+{render(dl, 1)}
+}}
+//@ OBL C15.handler.delete_name_reference_scoped
+// `delete_name_reference_scoped R`: the temporary is removed and its content pushed
+pub fn delete_name_reference_scoped(ctx: &mut Ctx, args: &Vec<VString>) -> (r: Result<(), VErr>)
+    ensures r is Ok <==> (args@.len() == 1 && local_cell(&old(ctx).frames, text_of(&args@[0])) is Some),
+            r is Ok ==> final(ctx).stack@ == old(ctx).stack@.push(cell_value(cell_id(&local_cell(&old(ctx).frames, text_of(&args@[0]))->Some_0)))
+                && deleted(&final(ctx).frames) == deleted(&old(ctx).frames).push(text_of(&args@[0])),
+            r is Err ==> final(ctx).stack@ == old(ctx).stack@,
+            final(ctx).exit_state == old(ctx).exit_state, final(ctx).callback_state == old(ctx).callback_state,
+{{
+{render(hs['delete_name_reference_scoped'], 1)}
+}}
+//@ OBL C01.handler.printn
+// `printn *` (what `print a, b, ..` compiles to): ONE line -- the operands in order, separated by `, ` -- is added to the output; no operand: an
+// empty line; `printn N`: one line showing operand N.  The operand stack is not touched.
+#[verifier::loop_isolation(false)]
+pub fn printn(ctx: &mut Ctx, args: &Vec<VString>, out: &mut Out) -> (r: Result<(), VErr>)
+    requires old(out).cur@.len() == 0,
+    ensures *final(ctx) == *old(ctx),
+            (args@.len() >= 1 && text_of(&args@[0]) == seq!['*']) ==> r is Ok && final(out).lines@ == old(out).lines@.push(joined(old(ctx).stack@, old(ctx).stack@.len() as int)) && final(out).cur@.len() == 0,
+            (args@.len() >= 1 && text_of(&args@[0]) != seq!['*']) ==> (r is Ok <==> (parses_usize(&args@[0]) && num_of(&args@[0]) < old(ctx).stack@.len()))
+                && (r is Ok ==> final(out).lines@ == old(out).lines@.push(shown(old(ctx).stack@[num_of(&args@[0])])) && final(out).cur@.len() == 0),
+            r is Err ==> final(out).lines@ == old(out).lines@,
+            args@.len() == 0 ==> r is Err,
+{{
+    proof {{ assert(out.cur@ =~= Seq::<char>::empty()); assert(Seq::<char>::empty() + shown(ctx.stack@[0]) =~= shown(ctx.stack@[0])) by {{ }} }}
+{render(pr, 1)}
+}}
+}} // verus!
+fn main() {{}}
+"""
+    obls = ctx_obls(names, ["C01"]) + [Obl("CTX.load_callback_variable", ["C07"], fn="Ctx::load_callback_variable", desc="context.rs Ctx::load_callback_variable: the captured variable's own cell")]
+    for n in LIT_KINDS:
+        obls.append(Obl(f"C01.handler.{n}", ["C01", "C06", "C15"], fn=n, desc=f"{n}: exactly one argument; pushes the value its text denotes (Primitive::{n}); anything else is an error and pushes nothing"))
+    obls += [
+        Obl("C01.handler.pop", ["C01", "C15"], fn="pop", desc="pop: drops the top operand, nothing else"),
+        Obl("C01.handler.void", ["C01", "C15"], fn="void", desc="void: empties the operand stack"),
+        Obl("C01.handler.make_str", ["C01", "C04", "C18"], fn="make_str", desc="make_str: the string value with exactly the argument's text"),
+        Obl("C15.handler.fast_rev2", ["C15", "C01", "C05"], fn="fast_rev2", desc="fast_rev2: exactly two operands, exchanged"),
+        Obl("C01.handler.arg", ["C01", "C07"], fn="arg", desc="arg N: pushes the N-th call argument; out of range is an error"),
+        Obl("C12.handler.reserve_primitive", ["C12"], fn="reserve_primitive", desc="reserve_primitive: pushes nil"),
+        Obl("C07.handler.load_callback", ["C07"], fn="load_callback", desc="load_callback: pushes the content of the captured variable's own cell"),
+        Obl("C13.handler.make_vector", ["C13", "C15"], fn="make_vector", desc="make_vector: a new list of exactly the operands in order"),
+        Obl("C15.handler.delete_name_scoped", ["C15", "C01"], fn="delete_name_scoped", desc="delete_name_scoped: every listed temporary removed, in order"),
+        Obl("C15.handler.delete_name_reference_scoped", ["C15", "C13"], fn="delete_name_reference_scoped", desc="delete_name_reference_scoped: removes the temporary and pushes its content"),
+        Obl("C01.handler.printn", ["C01", "C15"], fn="printn", desc="printn: `print a, b, ..` adds exactly one line, the operands in order separated by `, `; the operand stack is untouched"),
+    ]
+    return gen, obls, log
+
+
+U_LIT = VUnit("c01_small_handlers", ["C01", "C15", "C06", "C07", "C12", "C13", "C04", "C18", "C05"], "literal constructors, pop, void, fast_rev2, arg, temporaries, make_vector, printn", build_literals)
+U_LIT.assumes = ["Primitive::make_* are abstract callees here (obligations C01.literal.* of unit c01_literal_parsers)", "Display for Primitive (`shown`) is uninterpreted: the TEXT of a value is not under contract here, only which values are printed, in which order, on how many lines",
+                 "standard output as a ghost log of lines (print!/println! append); Stack::delete_variable_local abstract; gc cell semantics assumed"]
+UNITS.append(U_LIT)
